@@ -19,7 +19,7 @@ import (
 )
 
 const rule = "cases = (hostname-heavy trie-grown route set, request whose Host is derived from a registered hostname pattern and mutated: " +
-	"bytes/labels appended or prepended, truncated, port, trailing dot(s), junk, IP literals, empty); distinct by (route set, request); " +
+	"bytes/labels appended or prepended, truncated, port, trailing dot(s), junk, IP literals, empty; half of the cases after delete churn of related hostname routes); distinct by (route set, request); " +
 	"non-trivial when the route set has a hostname route for the request method and the Host is non-empty"
 
 func main() {
@@ -47,7 +47,7 @@ func main() {
 			run.Count("corpus_cases", 1)
 		}
 	}
-	sets := run.Pick(3000, 100000)
+	sets := run.Pick(3000, 500000)
 	const per = 50
 	run.Parallel(sets/per, func(batch int) {
 		r := run.Rand(uint64(batch))
